@@ -1,22 +1,26 @@
 package markdown
 
 import (
+	"bufio"
 	"bytes"
 	"context"
 	"fmt"
 	"io"
 	"io/fs"
 	"regexp"
+	"strconv"
 	"strings"
 
 	vuego "github.com/titpetric/vuego"
 
 	"github.com/yuin/goldmark"
 	"github.com/yuin/goldmark/ast"
-	east "github.com/yuin/goldmark/extension/ast"
 	"github.com/yuin/goldmark/extension"
+	east "github.com/yuin/goldmark/extension/ast"
 	"github.com/yuin/goldmark/parser"
+	ghtml "github.com/yuin/goldmark/renderer/html"
 	"github.com/yuin/goldmark/text"
+	"github.com/yuin/goldmark/util"
 
 	yaml "gopkg.in/yaml.v3"
 )
@@ -164,7 +168,14 @@ func (m *Markdown) renderNode(w io.Writer, node ast.Node, src []byte) error {
 	case *ast.HTMLBlock:
 		return m.renderHTMLBlock(w, n, src)
 	case *ast.TextBlock:
-		return m.renderInlineChildren(w, n, src)
+		if err := m.renderInlineChildren(w, n, src); err != nil {
+			return err
+		}
+		if n.NextSibling() != nil {
+			_, err := io.WriteString(w, "\n")
+			return err
+		}
+		return nil
 	case *east.Table:
 		return m.renderTable(w, n, src)
 	default:
@@ -197,7 +208,7 @@ func (m *Markdown) renderParagraph(w io.Writer, n *ast.Paragraph, src []byte) er
 // renderFencedCodeBlock renders a fenced code block with optional language.
 func (m *Markdown) renderFencedCodeBlock(w io.Writer, n *ast.FencedCodeBlock, src []byte) error {
 	return m.renderTemplate(w, "code_block", map[string]any{
-		"language": string(n.Language(src)),
+		"language": resolve(n.Language(src)),
 		"code":     codeBlockContent(n, src),
 	})
 }
@@ -229,7 +240,7 @@ func (m *Markdown) renderList(w io.Writer, n *ast.List, src []byte) error {
 	}
 	return m.renderTemplate(w, "list", map[string]any{
 		"ordered": n.IsOrdered(),
-		"start":   n.Start,
+		"start":   strconv.Itoa(n.Start),
 		"content": buf.String(),
 	})
 }
@@ -250,6 +261,11 @@ func (m *Markdown) renderHTMLBlock(w io.Writer, n *ast.HTMLBlock, src []byte) er
 	for i := 0; i < n.Lines().Len(); i++ {
 		line := n.Lines().At(i)
 		if _, err := w.Write(line.Value(src)); err != nil {
+			return err
+		}
+	}
+	if n.HasClosure() {
+		if _, err := w.Write(n.ClosureLine.Value(src)); err != nil {
 			return err
 		}
 	}
@@ -305,7 +321,10 @@ func (m *Markdown) renderInlineChildren(w io.Writer, node ast.Node, src []byte) 
 func (m *Markdown) renderInlineNode(w io.Writer, node ast.Node, src []byte) error {
 	switch n := node.(type) {
 	case *ast.Text:
-		segment := string(n.Segment.Value(src))
+		segment := textHTML(n.Segment.Value(src))
+		if n.IsRaw() {
+			segment = string(util.EscapeHTML(n.Segment.Value(src)))
+		}
 		if _, err := io.WriteString(w, segment); err != nil {
 			return err
 		}
@@ -333,16 +352,16 @@ func (m *Markdown) renderInlineNode(w io.Writer, node ast.Node, src []byte) erro
 	case *ast.Link:
 		content := m.inlineContent(n, src)
 		return m.renderTemplate(w, "link", map[string]any{
-			"href":    string(n.Destination),
-			"title":   string(n.Title),
+			"href":    string(util.URLEscape(n.Destination, true)),
+			"title":   resolve(n.Title),
 			"content": content,
 		})
 	case *ast.Image:
 		alt := inlineText(n, src)
 		return m.renderTemplate(w, "image", map[string]any{
-			"src":   string(n.Destination),
+			"src":   string(util.URLEscape(n.Destination, true)),
 			"alt":   alt,
-			"title": string(n.Title),
+			"title": resolve(n.Title),
 		})
 	case *ast.AutoLink:
 		url := string(n.URL(src))
@@ -378,6 +397,20 @@ func (m *Markdown) renderInlineNode(w io.Writer, node ast.Node, src []byte) erro
 	}
 }
 
+// resolve unescapes backslash escapes and resolves character references.
+func resolve(b []byte) string {
+	return string(util.ResolveEntityNames(util.ResolveNumericReferences(util.UnescapePunctuations(b))))
+}
+
+// textHTML renders a text segment as HTML text.
+func textHTML(b []byte) string {
+	var buf bytes.Buffer
+	bw := bufio.NewWriter(&buf)
+	ghtml.DefaultWriter.Write(bw, b)
+	_ = bw.Flush()
+	return buf.String()
+}
+
 // inlineContent renders all inline children of a node and returns the result as a string.
 func (m *Markdown) inlineContent(node ast.Node, src []byte) string {
 	var buf bytes.Buffer
@@ -394,6 +427,10 @@ func (m *Markdown) renderTemplate(w io.Writer, name string, data map[string]any)
 	}
 
 	result := buf.String()
+	switch name {
+	case "emphasis", "link", "code_span", "image", "autolink", "strikethrough", "task_checkbox", "raw_html":
+		result = strings.TrimSuffix(result, "\n")
+	}
 	if pp, ok := m.postProcessors[name]; ok {
 		result = pp(result)
 	}
@@ -407,7 +444,10 @@ func inlineText(node ast.Node, src []byte) string {
 	var buf strings.Builder
 	for c := node.FirstChild(); c != nil; c = c.NextSibling() {
 		if t, ok := c.(*ast.Text); ok {
-			buf.Write(t.Segment.Value(src))
+			buf.WriteString(resolve(t.Segment.Value(src)))
+			if t.SoftLineBreak() || t.HardLineBreak() {
+				buf.WriteString("\n")
+			}
 		} else if c.HasChildren() {
 			buf.WriteString(inlineText(c, src))
 		}
